@@ -59,7 +59,9 @@ func (p c01) Generate(c *Ctx) []any {
 	return out
 }
 
-var c01TemplateLocals = []string{"_mock", "tmpRet", "_va", "_i", "_ca", "returnFunc", "ok", "_e", "_c", "run", "args", "variadicArgs", "i", "a", "mock", "callInfo", "calls", "r0", "r1", "ret"}
+// identifiers the templates declare themselves, and predeclared functions their emitted code calls
+var c01TemplateLocals = []string{"_mock", "tmpRet", "_va", "_i", "_ca", "returnFunc", "ok", "_e", "_c", "run", "args", "variadicArgs", "i", "a", "mock", "callInfo", "calls", "r0", "r1", "ret",
+	"len", "panic", "append", "make"}
 
 func genGen(r *rand.Rand, idx int, stream string) GenInput {
 	in := GenInput{Template: []string{"testify", "matryer"}[idx%2], Formatter: []string{"goimports", "gofmt", "noop"}[(idx/2)%3], Options: map[string]any{}}
